@@ -22,11 +22,11 @@ From Coq Require Import ZArith NArith List Bool Lia.
 From Spec Require Import ISA Spec816.
 From Lib Require Import ZOps Machine.
 From Snapshot Require Import GenFields GenCpu65.
-From Props Require Import C01Base C01Shift C01OpsA C01OpsB C01OpsC C01OpsD C01OpsE C01OpsF C01OpsG C01OpsH C01Flow C01Imm C01OpsI C01OpsJ C01OpsK.
+From Props Require Import C01Base C01Flow C01MemRefs C01OpsA C01OpsB C01OpsC C01OpsD C01OpsE C01OpsF C01OpsG C01OpsH C01OpsI C01OpsJ C01OpsK C01Shift.
 Import ListNotations.
 Local Open Scope Z_scope.
 
-Definition proved_opcodes : list Z := [24; 56; 88; 120; 184; 216; 248; 234; 203; 219; 232; 200; 202; 136; 155; 187; 186; 154; 170; 168; 138; 152; 27; 59; 91; 123; 235; 26; 58; 10; 74; 42; 106; 16; 48; 80; 112; 128; 144; 176; 208; 240; 169; 162; 160; 137; 41; 9; 73; 201; 224; 192].
+Definition proved_opcodes : list Z := [1; 3; 4; 5; 6; 7; 9; 10; 12; 13; 14; 15; 16; 17; 18; 19; 20; 21; 22; 23; 24; 25; 26; 27; 28; 29; 30; 31; 33; 35; 36; 37; 38; 39; 41; 42; 44; 45; 46; 47; 48; 49; 50; 51; 52; 53; 54; 55; 56; 57; 58; 59; 60; 61; 62; 63; 65; 67; 69; 70; 71; 73; 74; 77; 78; 79; 80; 81; 82; 83; 85; 86; 87; 88; 89; 91; 93; 94; 95; 100; 102; 106; 110; 112; 116; 118; 120; 123; 126; 128; 129; 131; 132; 133; 134; 135; 136; 137; 138; 140; 141; 142; 143; 144; 145; 146; 147; 148; 149; 150; 151; 152; 153; 154; 155; 156; 157; 158; 159; 160; 161; 162; 163; 164; 165; 166; 167; 168; 169; 170; 172; 173; 174; 175; 176; 177; 178; 179; 180; 181; 182; 183; 184; 185; 186; 187; 188; 189; 190; 191; 192; 193; 195; 196; 197; 198; 199; 200; 201; 202; 203; 204; 205; 206; 207; 208; 209; 210; 211; 213; 214; 215; 216; 217; 219; 221; 222; 223; 224; 228; 230; 232; 234; 235; 236; 238; 240; 246; 248; 254].
 
 Definition C01_step_partial_statement : Prop :=
   forall op, In op proved_opcodes ->
@@ -37,58 +37,196 @@ Proof.
   intros op Hin. cbv [proved_opcodes In] in Hin.
   repeat (destruct Hin as [<- | Hin]; [
       first [
-      exact ref_18 |
-      exact ref_38 |
-      exact ref_58 |
-      exact ref_78 |
-      exact ref_B8 |
-      exact ref_D8 |
-      exact ref_F8 |
-      exact ref_EA |
-      exact ref_CB |
-      exact ref_DB |
-      exact ref_E8 |
-      exact ref_C8 |
-      exact ref_CA |
-      exact ref_88 |
-      exact ref_9B |
-      exact ref_BB |
-      exact ref_BA |
-      exact ref_9A |
-      exact ref_AA |
-      exact ref_A8 |
-      exact ref_8A |
-      exact ref_98 |
-      exact ref_1B |
-      exact ref_3B |
-      exact ref_5B |
-      exact ref_7B |
-      exact ref_EB |
-      exact ref_1A |
-      exact ref_3A |
-      exact ref_0A |
-      exact ref_4A |
-      exact ref_2A |
-      exact ref_6A |
-      exact ref_10 |
-      exact ref_30 |
-      exact ref_50 |
-      exact ref_70 |
-      exact ref_80 |
-      exact ref_90 |
-      exact ref_B0 |
-      exact ref_D0 |
-      exact ref_F0 |
-      exact ref_A9 |
-      exact ref_A2 |
-      exact ref_A0 |
-      exact ref_89 |
-      exact ref_29 |
+      exact ref_01 |
+      exact ref_03 |
+      exact ref_04 |
+      exact ref_05 |
+      exact ref_06 |
+      exact ref_07 |
       exact ref_09 |
+      exact ref_0A |
+      exact ref_0C |
+      exact ref_0D |
+      exact ref_0E |
+      exact ref_0F |
+      exact ref_10 |
+      exact ref_11 |
+      exact ref_12 |
+      exact ref_13 |
+      exact ref_14 |
+      exact ref_15 |
+      exact ref_16 |
+      exact ref_17 |
+      exact ref_18 |
+      exact ref_19 |
+      exact ref_1A |
+      exact ref_1B |
+      exact ref_1C |
+      exact ref_1D |
+      exact ref_1E |
+      exact ref_1F |
+      exact ref_21 |
+      exact ref_23 |
+      exact ref_24 |
+      exact ref_25 |
+      exact ref_26 |
+      exact ref_27 |
+      exact ref_29 |
+      exact ref_2A |
+      exact ref_2C |
+      exact ref_2D |
+      exact ref_2E |
+      exact ref_2F |
+      exact ref_30 |
+      exact ref_31 |
+      exact ref_32 |
+      exact ref_33 |
+      exact ref_34 |
+      exact ref_35 |
+      exact ref_36 |
+      exact ref_37 |
+      exact ref_38 |
+      exact ref_39 |
+      exact ref_3A |
+      exact ref_3B |
+      exact ref_3C |
+      exact ref_3D |
+      exact ref_3E |
+      exact ref_3F |
+      exact ref_41 |
+      exact ref_43 |
+      exact ref_45 |
+      exact ref_46 |
+      exact ref_47 |
       exact ref_49 |
+      exact ref_4A |
+      exact ref_4D |
+      exact ref_4E |
+      exact ref_4F |
+      exact ref_50 |
+      exact ref_51 |
+      exact ref_52 |
+      exact ref_53 |
+      exact ref_55 |
+      exact ref_56 |
+      exact ref_57 |
+      exact ref_58 |
+      exact ref_59 |
+      exact ref_5B |
+      exact ref_5D |
+      exact ref_5E |
+      exact ref_5F |
+      exact ref_64 |
+      exact ref_66 |
+      exact ref_6A |
+      exact ref_6E |
+      exact ref_70 |
+      exact ref_74 |
+      exact ref_76 |
+      exact ref_78 |
+      exact ref_7B |
+      exact ref_7E |
+      exact ref_80 |
+      exact ref_81 |
+      exact ref_83 |
+      exact ref_84 |
+      exact ref_85 |
+      exact ref_86 |
+      exact ref_87 |
+      exact ref_88 |
+      exact ref_89 |
+      exact ref_8A |
+      exact ref_8C |
+      exact ref_8D |
+      exact ref_8E |
+      exact ref_8F |
+      exact ref_90 |
+      exact ref_91 |
+      exact ref_92 |
+      exact ref_93 |
+      exact ref_94 |
+      exact ref_95 |
+      exact ref_96 |
+      exact ref_97 |
+      exact ref_98 |
+      exact ref_99 |
+      exact ref_9A |
+      exact ref_9B |
+      exact ref_9C |
+      exact ref_9D |
+      exact ref_9E |
+      exact ref_9F |
+      exact ref_A0 |
+      exact ref_A1 |
+      exact ref_A2 |
+      exact ref_A3 |
+      exact ref_A4 |
+      exact ref_A5 |
+      exact ref_A6 |
+      exact ref_A7 |
+      exact ref_A8 |
+      exact ref_A9 |
+      exact ref_AA |
+      exact ref_AC |
+      exact ref_AD |
+      exact ref_AE |
+      exact ref_AF |
+      exact ref_B0 |
+      exact ref_B1 |
+      exact ref_B2 |
+      exact ref_B3 |
+      exact ref_B4 |
+      exact ref_B5 |
+      exact ref_B6 |
+      exact ref_B7 |
+      exact ref_B8 |
+      exact ref_B9 |
+      exact ref_BA |
+      exact ref_BB |
+      exact ref_BC |
+      exact ref_BD |
+      exact ref_BE |
+      exact ref_BF |
+      exact ref_C0 |
+      exact ref_C1 |
+      exact ref_C3 |
+      exact ref_C4 |
+      exact ref_C5 |
+      exact ref_C6 |
+      exact ref_C7 |
+      exact ref_C8 |
       exact ref_C9 |
+      exact ref_CA |
+      exact ref_CB |
+      exact ref_CC |
+      exact ref_CD |
+      exact ref_CE |
+      exact ref_CF |
+      exact ref_D0 |
+      exact ref_D1 |
+      exact ref_D2 |
+      exact ref_D3 |
+      exact ref_D5 |
+      exact ref_D6 |
+      exact ref_D7 |
+      exact ref_D8 |
+      exact ref_D9 |
+      exact ref_DB |
+      exact ref_DD |
+      exact ref_DE |
+      exact ref_DF |
       exact ref_E0 |
-      exact ref_C0 ] | ]).
+      exact ref_E4 |
+      exact ref_E6 |
+      exact ref_E8 |
+      exact ref_EA |
+      exact ref_EB |
+      exact ref_EC |
+      exact ref_EE |
+      exact ref_F0 |
+      exact ref_F6 |
+      exact ref_F8 |
+      exact ref_FE ] | ]).
   contradiction.
 Qed.
 
@@ -106,7 +244,7 @@ Proof.
       first [ (split; [ discriminate | reflexivity ]) | (left; reflexivity) | (right; reflexivity) ].
   - reflexivity.
   - split; vm_compute; discriminate.
-  - vm_compute. left. reflexivity.
+  - vm_compute. repeat (first [ left; reflexivity | right ]).
 Qed.
 Example C01_example_effect : (* CLC on that state clears C and advances PC *)
   match Step ex_state with Ok _ s' => (get f_C s', get f_PC s') = (0, 32769) | Panic => False end.
